@@ -2455,6 +2455,25 @@ fn zsh_run<S: std::hash::BuildHasher + Clone + Default>(rep: &mut Report, label:
                             || m.raw_entry().from_key(&k) != r.get_key_value(&k) {
                             problems.push(format!("lookups of {k} disagree with the reference"));
                         }
+                        if let Some(v) = r.get(&k) {
+                            if m[&k] != *v { problems.push(format!("Index of {k}")); }
+                            if m.get_key_value_mut(&k).map(|(a, b)| (*a, *b)) != Some((k, *v)) { problems.push(format!("get_key_value_mut of {k}")); }
+                        }
+                        // the by-reference trait impls: Extend<(&K, &V)>, IntoIterator for &mut, FromIterator with repeats
+                        if g.chance(1, 4) {
+                            log.push("extend by reference from other; for (_, v) in &mut m; from_iter with repeated keys".into());
+                            m.extend(other.iter());
+                            for (k2, v2) in rother.iter() { r.insert(*k2, *v2); }
+                            for (_, v) in &mut m { *v += 2; }
+                            for v in r.values_mut() { *v += 2; }
+                            let pairs: Vec<(u64, u64)> = r.iter().map(|(a, b)| (*a, *b)).chain(r.iter().take(5).map(|(a, b)| (*a, *b + 1))).collect();
+                            let f: HashMap<u64, u64, S> = pairs.iter().copied().collect();
+                            let mut rf: BTreeMap<u64, u64> = BTreeMap::new();
+                            for (a, b) in pairs { rf.insert(a, b); }
+                            let mut got: Vec<(u64, u64)> = f.iter().map(|(a, b)| (*a, *b)).collect();
+                            got.sort_unstable();
+                            if got != rf.into_iter().collect::<Vec<_>>() { problems.push("from_iter with repeated keys".into()); }
+                        }
                     }
                 }
                 // after every call
